@@ -23,7 +23,8 @@ GF = rig.GENERAL_FAILURE
 
 OPS = ['create', 'create_key_pair', 'register_sym', 'register_cert', 'register_opaque', 'register_secret',
        'register_split', 'register_priv', 'derive_key', 'activate', 'revoke', 'revoke_compromise', 'destroy',
-       'destroy_rich', 'destroy_compromised', 'modify_name', 'add_group_v1', 'delete_name', 'delete_asi', 'set_sensitive', 'modify_asi_v2']
+       'destroy_rich', 'destroy_compromised', 'modify_name', 'add_group_v1', 'delete_name', 'delete_asi', 'set_sensitive', 'modify_asi_v2',
+       'delete_names_ref_v2', 'delete_groups_ref_v2', 'delete_asi_ref_v2', 'delete_asi_current_v2', 'modify_group_v2']
 
 
 def plan(tier):
@@ -138,6 +139,17 @@ def build(op, env, tagname):
         return (2, 0), [op_modify_attribute_20(env['pre'], A.APPLICATION_SPECIFIC_INFORMATION,
                                                {'application_namespace': 'ns-new', 'application_data': 'd-new'},
                                                {'application_namespace': 'ns1', 'application_data': 'd1'}, True)]
+    if op == 'delete_names_ref_v2':          # every instance of a multi-valued attribute in one operation
+        return (2, 0), [op_delete_attribute_20(env['pre'], A.NAME, None, reference=True)]
+    if op == 'delete_groups_ref_v2':
+        return (2, 0), [op_delete_attribute_20(env['pre'], A.OBJECT_GROUP, None, reference=True)]
+    if op == 'delete_asi_ref_v2':
+        return (2, 0), [op_delete_attribute_20(env['pre'], A.APPLICATION_SPECIFIC_INFORMATION, None, reference=True)]
+    if op == 'delete_asi_current_v2':
+        return (2, 0), [op_delete_attribute_20(env['pre'], A.APPLICATION_SPECIFIC_INFORMATION,
+                                               {'application_namespace': 'ns2', 'application_data': 'd2'}, has_current=True)]
+    if op == 'modify_group_v2':
+        return (2, 0), [op_modify_attribute_20(env['pre'], A.OBJECT_GROUP, 'g-new-' + tagname, 'g2', True)]
     raise ValueError(op)
 
 
